@@ -19,7 +19,12 @@ pub enum Op {
     Close(usize),
     Err(usize),
     Send { from: usize, to: usize, batch: bool },
+    /// explicit datagram shape (shape pass): ECN bits, segment-size field (0 = none), contents length
+    SendShape { from: usize, to: usize, ecn: u8, seg: u16, len: u16 },
     Disc { id: usize, conn: Option<usize> },
+    /// `Clients::shutdown()` polled once by hand (entries removed, every connection cancelled, no actor has run
+    /// yet), then driven to completion in the background
+    Shutdown,
 }
 
 #[derive(Clone, Serialize, Deserialize, Debug, PartialEq, Eq, Hash, PartialOrd, Ord)]
@@ -74,6 +79,7 @@ pub struct Limits {
     pub max_conns: BTreeMap<usize, usize>,
     pub with_err: bool,
     pub with_v1: bool,
+    pub with_shutdown: bool,
     pub dsts: Vec<usize>,
 }
 
@@ -113,6 +119,9 @@ pub fn menu(h: &[Step], lim: &Limits) -> Vec<Step> {
         // includes stale requests for connections that are already gone
         ops.push(Op::Disc { id: m.conn_id[c], conn: Some(c) });
     }
+    if lim.with_shutdown && !m.conn_id.is_empty() && !h.iter().any(|s| s.op == Op::Shutdown) {
+        ops.push(Op::Shutdown);
+    }
     let unsettled_so_far = h.iter().filter(|s| !s.settle).count();
     let mut out = Vec::new();
     for op in ops {
@@ -144,7 +153,13 @@ fn apply_structural(m: &mut Model, op: &Op) {
                 end_conn_quiet(m, c);
             }
         }
-        Op::Send { .. } => {}
+        Op::Send { .. } | Op::SendShape { .. } => {}
+        Op::Shutdown => {
+            let all: Vec<usize> = m.reg.values().flatten().copied().collect();
+            for c in all {
+                end_conn_quiet(m, c);
+            }
+        }
     }
 }
 fn end_conn_quiet(m: &mut Model, c: usize) {
@@ -207,6 +222,7 @@ pub fn exec(history: &[Step]) -> ExecResult {
             let mut displaced_in_group: BTreeSet<usize> = BTreeSet::new();
             let mut entries_removed_in_group: BTreeSet<usize> = BTreeSet::new();
             let mut ending: BTreeSet<usize> = BTreeSet::new();
+            let mut shutdown_in_group = false;
             let mut touched_ids: BTreeSet<usize> = BTreeSet::new();
             let mut conn_id_proj = m.conn_id.clone();
             for op in &group {
@@ -221,7 +237,12 @@ pub fn exec(history: &[Step]) -> ExecResult {
                     Op::Close(c) | Op::Err(c) => {
                         touched_ids.insert(conn_id_proj[*c]);
                     }
-                    Op::Send { .. } => {}
+                    Op::Send { .. } | Op::SendShape { .. } => {}
+                    Op::Shutdown => {
+                        for id in 0..8 {
+                            touched_ids.insert(id);
+                        }
+                    }
                 }
             }
             for op in &group {
@@ -259,9 +280,37 @@ pub fn exec(history: &[Step]) -> ExecResult {
                             ending.insert(c);
                         }
                     }
-                    Op::Send { from, to, batch } => {
+                    Op::Shutdown => {
+                        let targets: Vec<usize> = m.reg.values().flatten().copied().collect();
+                        let c = w.clients.clone();
+                        let mut fut = Box::pin(async move { c.shutdown().await });
+                        // first poll: removes every entry and cancels every connection; no actor has run yet
+                        let waker = std::task::Waker::noop();
+                        let _ = std::future::Future::poll(fut.as_mut(), &mut std::task::Context::from_waker(waker));
+                        tokio::spawn(fut);
+                        for c in targets {
+                            ending.insert(c);
+                        }
+                        // the registry is empty from this instant on (later connects of this group displace nothing)
+                        shutdown_in_group = true;
+                        m.reg.clear();
+                    }
+                    Op::Send { .. } | Op::SendShape { .. } => {
+                        let (from, to) = match op {
+                            Op::Send { from, to, .. } | Op::SendShape { from, to, .. } => (from, to),
+                            _ => unreachable!(),
+                        };
                         seq = seq.wrapping_add(1);
-                        let (ecn, seg, contents) = if *batch { (3u8, Some(2u16), vec![seq, 0xb1, 0xb2, 0xb3, 0xb4]) } else { (0u8, None, vec![seq, 0xa0]) };
+                        let (ecn, seg, contents) = match op {
+                            Op::Send { batch: true, .. } => (3u8, Some(2u16), vec![seq, 0xb1, 0xb2, 0xb3, 0xb4]),
+                            Op::Send { .. } => (0u8, None, vec![seq, 0xa0]),
+                            Op::SendShape { ecn, seg, len, .. } => {
+                                let mut c = vec![seq];
+                                c.extend((1..*len).map(|i| (i % 251) as u8));
+                                (*ecn, if *seg == 0 { None } else { Some(*seg) }, c)
+                            }
+                            _ => unreachable!(),
+                        };
                         w.send_msg(*from, &datagram_msg(*to, ecn, seg, &contents));
                         let mut window_active = BTreeSet::new();
                         if let Some(a) = m.active(*to) {
@@ -328,6 +377,18 @@ pub fn exec(history: &[Step]) -> ExecResult {
                         expect.entry(now).or_default().push(Obs::Notice("healthy".into()));
                     }
                     Some(_) => {}
+                    None if shutdown_in_group => {
+                        // Clients::shutdown removes the entries itself; the actors' later unregister calls find nothing,
+                        // so no peer-gone notice is sent and the sent-to record stays behind. The statement allows a
+                        // later incarnation's departure to be announced to those peers ("clients it had sent to"), so
+                        // the record is kept as optional.
+                        entries_removed_in_group.insert(id);
+                        if let Some(peers) = m.sent_to.get_mut(&id) {
+                            for t in peers.values_mut() {
+                                *t = Tri::Maybe;
+                            }
+                        }
+                    }
                     None => {
                         entries_removed_in_group.insert(id);
                         if let Some(peers) = m.sent_to.remove(&id) {
@@ -529,9 +590,9 @@ fn model_key(m: &Model) -> String {
 
 pub fn limits(ctx: &Ctx) -> (Limits, usize) {
     if ctx.thorough() {
-        (Limits { max_unsettled: 2, max_conns: BTreeMap::from([(0, 3), (1, 2)]), with_err: true, with_v1: true, dsts: vec![0, 1, 2] }, 6)
+        (Limits { max_unsettled: 2, max_conns: BTreeMap::from([(0, 3), (1, 2)]), with_err: true, with_v1: true, with_shutdown: true, dsts: vec![0, 1, 2] }, 6)
     } else {
-        (Limits { max_unsettled: 1, max_conns: BTreeMap::from([(0, 3), (1, 1)]), with_err: false, with_v1: true, dsts: vec![0, 1, 2] }, 5)
+        (Limits { max_unsettled: 1, max_conns: BTreeMap::from([(0, 3), (1, 1)]), with_err: false, with_v1: true, with_shutdown: true, dsts: vec![0, 1, 2] }, 5)
     }
 }
 
@@ -554,6 +615,39 @@ pub fn drive(prop: &'static str) {
     ctx.bound("max_depth", depth);
     ctx.bound("max_connections_per_id", &lim.max_conns);
     ctx.bound("max_unsettled_stimuli_per_history", lim.max_unsettled);
+    // pass 0: datagram shapes — every (ECN, segment size, contents length) of a small grid, incl. segment sizes that do
+    // not divide the length, exceed it, or leave a short tail, sent once between two connected clients
+    {
+        let mut shapes = Vec::new();
+        for ecn in 0u8..4 {
+            for seg in [0u16, 1, 2, 3, 4, 5, 6, 9, 1200, 65535] {
+                for len in (1u16..=12).chain([1199, 1200, 1201, 1500, 2399, 2400, 2401]) {
+                    shapes.push((ecn, seg, len));
+                }
+            }
+        }
+        ctx.bound("shape_pass_shapes", shapes.len());
+        par_for_each(&shapes, |&(ecn, seg, len)| {
+            for v1 in [false, true] {
+                let h = vec![
+                    Step { op: Op::Connect { id: 0, v1: false }, settle: true },
+                    Step { op: Op::Connect { id: 1, v1 }, settle: true },
+                    Step { op: Op::SendShape { from: 0, to: 1, ecn, seg, len }, settle: true },
+                ];
+                match quiet_catch(|| exec(&h)) {
+                    Err(p) => ctx.discrepancy(None, &format!("panic in relay code: {p}"), &h),
+                    Ok(r) => {
+                        ctx.add_traces(1);
+                        ctx.add_transitions(3);
+                        ctx.eval(if seg == 0 { "shape:single" } else if (len as u32) <= seg as u32 { "shape:segment>=contents" } else if (len as u32) < 2 * seg as u32 { "shape:one-segment+tail" } else { "shape:batch" }, &format!("deliv={}", r.delivered));
+                        for v in r.violations.iter().filter(|v| v.prop == prop) {
+                            ctx.discrepancy(None, &format!("{} (shape ecn={ecn} seg={seg} len={len})", v.what), &h);
+                        }
+                    }
+                }
+            }
+        });
+    }
     let menu_fn = |h: &[Step]| menu(h, &lim);
     let exec_fn = |h: &[Step]| -> Option<Step2> {
         let r = quiet_catch(|| exec(h));
@@ -583,7 +677,7 @@ pub fn drive(prop: &'static str) {
     ctx.bound("mixed_pass_depth_completed", d1);
     // second pass: registry-only alphabet (connect / close / disconnect of ONE endpoint id, no sends; the probe
     // phase at the end of every execution observes the registry), more connections and deeper
-    let lim2 = Limits { max_unsettled: ctx.pick(0, 1), max_conns: BTreeMap::from([(0, ctx.pick(4, 5))]), with_err: false, with_v1: false, dsts: vec![] };
+    let lim2 = Limits { max_unsettled: ctx.pick(0, 1), max_conns: BTreeMap::from([(0, ctx.pick(4, 5))]), with_err: false, with_v1: false, with_shutdown: true, dsts: vec![] };
     let depth2 = ctx.pick(7, 9);
     ctx.bound("registry_pass_max_connections_of_one_id", lim2.max_conns[&0]);
     ctx.bound("registry_pass_max_depth", depth2);
@@ -601,6 +695,8 @@ fn op_name(op: &Op) -> &'static str {
         Op::Connect { .. } => "connect-v2",
         Op::Close(_) => "close",
         Op::Err(_) => "error",
+        Op::Shutdown => "shutdown",
+        Op::SendShape { .. } => "send-shape",
         Op::Send { batch: true, .. } => "send-batch",
         Op::Send { .. } => "send",
         Op::Disc { conn: None, .. } => "disc-id",
